@@ -174,7 +174,7 @@ def h_explicit(ctx, skel, nep):
 
 def cases(tier):
     cs = []
-    for sk, G in (("cat3", 3), ("cat3", 4), ("root_not_last", 3)) + \
+    for sk, G in (("cat3", 3), ("cat3", 4), ("root_not_last", 3), ("cat3_samples_last", 3)) + \
             ((("bal4", 3),) if tier == "thorough" else ()):
         for distr in ("lognorm", "gamma"):
             for nep in (1, 2):
@@ -203,7 +203,7 @@ def run(tier, seed, t0):
         functions=["tsdate.prior.fill_priors", "tsdate.prior.MixturePrior.make_discretised_prior",
                    "tsdate.node_time_class.NodeTimeValues.__init__/__setitem__/standardize",
                    "tsdate.demography.PopulationSizeHistory.to_natural/to_coalescent_timescale"],
-        bounds={"skeletons": "cat3, root_not_last (bal4 thorough)", "grid": "3-4 points",
+        bounds={"skeletons": "cat3, root_not_last, cat3_samples_last (bal4 thorough)", "grid": "3-4 points",
                 "epochs": "1-2", "distributions": "lognorm, gamma"},
         stubs=["scipy.stats.lognorm/gamma.cdf -> uninterpreted monotone functions",
                "np.sqrt / np.exp of parameters -> uninterpreted"],
@@ -221,7 +221,7 @@ def replay(payload):
     import tsdate
     from tsdate import prior
     bad = []
-    for name in ("cat3", "root_not_last", "bal4"):
+    for name in ("cat3", "root_not_last", "bal4", "cat3_samples_last"):
         ts = SK.all_named()[name]()
         for distr in ("lognorm", "gamma"):
             for tp in (np.array([0.0, 7.25, 1.5, 30.0]), 5):
